@@ -233,6 +233,31 @@ PROPS["C16"] = {
     ],
 }
 
+PROPS["C15"] = {
+    "level": "exploration",
+    "rule": "two parts. recording cron (real time is irrelevant; the harness delivers ticks): histories (2-18 ops) over 2-3 locations "
+            "sharing rule ids s1/s2 of adding scheduled rules ('+d', '!t', 7-field expressions, optionally deleteWith an anchor fact), "
+            "overwriting them with ordinary rules or plain facts, RemRule, removing the anchor (cascade), Clear, reload (persistent "
+            "cron: one location; ephemeral cron: the jobs are lost and every location is reloaded) and tick(loc,id); indexed or linear. "
+            "After every op the cron's registrations must equal the model's live scheduled rules; a tick runs exactly the live "
+            "scheduled rule of that location (unique action value per add), a one-shot is deleted after it ran, anything else "
+            "produces no value. sys+InternalCron (virtual clock): the real in-memory cron wired into one sys.System; scheduled rules "
+            "('+d' and */2 recurring) in locations A/B sharing ids, RemRule, overwrite, Clear, sleeps; each firing is recorded by a Go "
+            "function exposed to the action; oracle: runs only in its own location, never if removed before due, one-shot at most once "
+            "and deleted afterwards, runs if it still exists a second after it was due. Non-trivial = the same id scheduled in two "
+            "locations, or a tick for a formerly scheduled rule. Distinct = distinct canonical JSON.",
+    "assumptions": COMMON_ASSUMPTIONS + [
+        "harness operations are kept off the instants at which ticks are due (an operation concurrent with a tick is C12's business)",
+        "a scheduled rule that also expires is covered only through the known finding (expiry bypasses the remove hook like a cascade)",
+    ],
+    "parts": [
+        {"name": "reccron", "mode": "plain", "test": "TestC15",
+         "quick": {"checks": 1500, "shards": 4}, "thorough": {"checks": 15000, "shards": 16}},
+        {"name": "sys-internalcron", "mode": "faketime", "test": "TestC15Sys",
+         "quick": {"checks": 400, "shards": 4}, "thorough": {"checks": 5000, "shards": 16}},
+    ],
+}
+
 # Properties deliberately not claimed (reason shown in MANIFEST.not_applicable).
 NOT_APPLICABLE = {}
 
@@ -288,6 +313,11 @@ TEXT = {
         "technique": _PBT + "generated job-operation sequences on a virtual clock vs closed-form due-time/occurrence oracles and a table/index consistency invariant (in-package via overlay for crolt)",
         "level_text": "Generated exploration of both cron services with exact virtual instants; every fire is attributed to a job generation. Not a proof.",
         "level_note": "Trusted: Go faketime mode; the overlay that compiles the check into package main of /repo/crolt; firing observed through the job's index id.",
+    },
+    "C15": {
+        "technique": _PBT + "stateful generated histories vs reference model with a recording cron (registration-set invariant, harness-delivered ticks) and the real cron on a virtual clock",
+        "level_text": "Generated exploration of the rule/cron coupling across locations; registrations compared after every step. Not a proof.",
+        "level_note": "Trusted: recording Cronner (props/c15_test.go), reference model, Go faketime for the InternalCron part.",
     },
     "C05": {
         "technique": _PBT + "generated (pattern, data, bindings) vs independent brute-force matcher; substitution round-trip; metamorphic typed variants",
